@@ -49,30 +49,32 @@ def verify(name, prop, src):
 
 
 def try_(name, ids):
+    """run the quick checks against the seeded change.  While helper agents read /repo as their clean baseline the change is
+    applied in a scratch worktree and the checks are pointed at it (VERIF_REPO); `try-inplace` applies it to /repo itself."""
     dst = os.path.join(VERIF, "seeded", name)
     patch = os.path.join(dst, "patch.diff")
-    st = sh("git -C /repo status --porcelain").stdout.strip()
-    if st:
-        raise SystemExit("/repo is not clean:\n" + st)
-    sh(["git", "-C", "/repo", "apply", patch], check=True)
+    wt = "/tmp/wtm_" + name
+    sh("git -C /repo worktree remove --force %s" % wt)
+    sh("git -C /repo worktree add -q --detach %s HEAD" % wt, check=True)
     res = {}
     try:
+        sh(["git", "-C", wt, "apply", patch], check=True)
+        env = dict(ENV, VERIF_REPO=wt)
         for pid in ids:
             t0 = time.time()
-            p = sh([os.path.join(VERIF, "harness", "vcheck"), pid, "--tier", "quick"], cwd=VERIF, timeout=3600)
+            p = subprocess.run([os.path.join(VERIF, "harness", "vcheck"), pid, "--tier", "quick"], cwd=VERIF, env=env,
+                               stdout=subprocess.PIPE, stderr=subprocess.STDOUT, text=True, timeout=3600)
             lines = [l for l in p.stdout.splitlines() if l.startswith(("VIOLATION", "KNOWN-FINDING", "OK "))]
             res[pid] = {"rc": p.returncode, "lines": lines, "wall_s": round(time.time() - t0, 1)}
             print(pid, p.returncode, lines[:3], "%.0fs" % (time.time() - t0))
             if p.returncode not in (0, 1):
                 print(p.stdout[-2000:])
     finally:
-        sh("git -C /repo checkout -- .")
-        sh("git -C /repo clean -fdq")
+        sh("git -C /repo worktree remove --force %s" % wt)
     mp = os.path.join(dst, "meta.json")
     meta = json.load(open(mp))
     meta.setdefault("caught_by", {}).update({k: v for k, v in res.items()})
     json.dump(meta, open(mp, "w"), indent=1)
-    # the evidence and replays written while the mutant was applied are not evidence of the clean tree
     return 0
 
 
